@@ -815,9 +815,7 @@ func c04XMLCase(r *Run, rng *Rng, d c04Desc, tag string) {
 		}
 	}
 	// the raw part agrees with the cached one cell by cell (covered by purity:rows-after-load)
-	if r0c { // on the rless-mixed shape the cached sheet no longer has the description's positions (known finding)
-		c04TrimOracle(s, g, d, sigSuffix)
-	}
+	c04TrimOracle(s, g, d, sigSuffix)
 	c04IterOracle(s, g, gc, sigSuffix)
 	// SearchSheet: exactly the cells whose value equals the needle
 	for _, n := range needles {
@@ -1035,39 +1033,18 @@ func c04APIRecipe(sub uint64) (c04Builder, string, func(*xl.File)) {
 		xfmt := "\"x\"0"
 		s4, _ := f.NewStyle(&xl.Style{CustomNumFmt: &xfmt})
 		styles := []int{0, s1, s2, s3, s4}
-		for _, o := range ops {
-			switch o.kind {
-			case "str":
-				f.SetCellValue(o.sheet, o.cell, o.sval)
-			case "float":
-				f.SetCellValue(o.sheet, o.cell, o.fval)
-			case "int":
-				f.SetCellValue(o.sheet, o.cell, o.ival)
-			case "bool":
-				f.SetCellValue(o.sheet, o.cell, true)
-			case "formula":
-				f.SetCellFormula(o.sheet, o.cell, o.sval)
-			case "style":
-				f.SetCellStyle(o.sheet, o.cell, o.cell, styles[o.ival])
-			case "fmtnum":
-				f.SetCellValue(o.sheet, o.cell, o.fval)
-				f.SetCellStyle(o.sheet, o.cell, o.cell, styles[o.ival])
-			case "merge":
-				f.MergeCell(o.sheet, o.cell, o.cell2)
-			case "rowhide":
-				f.SetRowVisible(o.sheet, o.ival, false)
-			case "rowheight":
-				f.SetRowHeight(o.sheet, o.ival, o.fval)
-			case "default":
-				f.SetCellDefault(o.sheet, o.cell, o.sval)
-			case "link":
-				f.SetCellHyperLink(o.sheet, o.cell, o.sval, "External")
-			case "rich":
-				f.SetCellRichText(o.sheet, o.cell, []xl.RichTextRun{{Text: o.sval, Font: &xl.Font{Bold: true}}, {Text: "-run"}})
-			case "shared":
-				t, ref := xl.STCellFormulaTypeShared, o.cell+":"+o.cell2
-				f.SetCellFormula(o.sheet, o.cell, o.sval, xl.FormulaOpts{Type: &t, Ref: &ref})
-			}
+		for oi, o := range ops {
+			o := o
+			// a setter that panics is not C04's subject: the op is skipped (identically in every
+			// twin) and reported in the run's notes
+			func() {
+				defer func() {
+					if p := recover(); p != nil {
+						c04RecipePanics[fmt.Sprintf("%s after [%s]: %v", desc[oi], strings.Join(desc[:oi], "; "), p)] = true
+					}
+				}()
+				c04ApplyOp(f, o.kind, o.sheet, o.cell, o.cell2, o.sval, o.fval, o.ival, styles)
+			}()
 		}
 		return f
 	}
@@ -1104,9 +1081,6 @@ func c04XMLRecipe(sub uint64) (c04Builder, string) {
 	c04Hot = nil
 	rng := NewRng(sub)
 	d := c04GenDesc(rng, true)
-	for !d.r0consistent() { // the rless-mixed shape is a known finding, reproduced by the xml cases
-		d = c04GenDesc(rng, true)
-	}
 	// extra numeric payloads that exercise getValueFrom's default branch
 	nums := []string{"1.0000000000000002", "1E3", "12345678901234567890", "0.30000000000000004", "1e+21", "007"}
 	extra := ""
@@ -1973,6 +1947,12 @@ func runC04(r *Run, rng *Rng, replay string) {
 		c04BatchCase(r, kind, c04Sub(r.Seed, kind, i))
 		r.Stat("batchcase:" + kind)
 	}
+	for k := range c04RecipePanics {
+		r.Stat("recipe-setter-panic")
+		if len(r.Notes) < 6 {
+			r.Notes = append(r.Notes, "setter panicked while building a state (skipped; not a read-only call): "+k[:c04min(len(k), 600)])
+		}
+	}
 	c04StopProf()
 }
 
@@ -2496,5 +2476,43 @@ func c04SSTCases(r *Run, rng *Rng, n int) {
 			}
 		}
 		run(line)
+	}
+}
+
+// c04RecipePanics: recipe ops (setters) that panicked, with the ops before them
+var c04RecipePanics = map[string]bool{}
+
+func c04ApplyOp(f *xl.File, kind, sheet, cell, cell2, sval string, fval float64, ival int, styles []int) {
+	switch kind {
+	case "str":
+		f.SetCellValue(sheet, cell, sval)
+	case "float":
+		f.SetCellValue(sheet, cell, fval)
+	case "int":
+		f.SetCellValue(sheet, cell, ival)
+	case "bool":
+		f.SetCellValue(sheet, cell, true)
+	case "formula":
+		f.SetCellFormula(sheet, cell, sval)
+	case "style":
+		f.SetCellStyle(sheet, cell, cell, styles[ival])
+	case "fmtnum":
+		f.SetCellValue(sheet, cell, fval)
+		f.SetCellStyle(sheet, cell, cell, styles[ival])
+	case "merge":
+		f.MergeCell(sheet, cell, cell2)
+	case "rowhide":
+		f.SetRowVisible(sheet, ival, false)
+	case "rowheight":
+		f.SetRowHeight(sheet, ival, fval)
+	case "default":
+		f.SetCellDefault(sheet, cell, sval)
+	case "link":
+		f.SetCellHyperLink(sheet, cell, sval, "External")
+	case "rich":
+		f.SetCellRichText(sheet, cell, []xl.RichTextRun{{Text: sval, Font: &xl.Font{Bold: true}}, {Text: "-run"}})
+	case "shared":
+		t, ref := xl.STCellFormulaTypeShared, cell+":"+cell2
+		f.SetCellFormula(sheet, cell, sval, xl.FormulaOpts{Type: &t, Ref: &ref})
 	}
 }
